@@ -29,7 +29,6 @@ Definition corr_sniff (c : list Z * (option Z * option Z) * list (option Z * opt
 (* ---- pipelines.  A placement is (target-or-href, flag); names = zip namelist.
    result per unit: (image_number, member name) — member "" for a record without bytes *)
 Definition placement := (str * Z)%type.
-Definition member_of (names : list str) (p : str) : option str := if mem_str p names then Some p else None.
 Definition is_http (h : str) : bool := startswith h (s "http").
 
 Definition fetch_opc (base : str) (names : list str) (pl : placement) : option str :=
@@ -88,6 +87,9 @@ Definition pipeline (fmt : Z) (base : str) (names : list str) (units : list (lis
   | 5 => number_units_running (fetch_odf names) 0 units
   | 6 => [let '(o, _, _) := odf_dedupe names [] true 0 (List.concat units) in o]
   | 7 => [number_found (fetch_opc base names) 0 (List.concat units)]
+  (* 8 pdf: every image XObject a page draws, in content-stream order, numbered per page (pypdf is the oracle that
+     lists them; placements are XObject names, all present) *)
+  | 8 => number_units_restart (fun pl => member_of names (fst pl)) units
   | _ => []
   end.
 
